@@ -230,6 +230,7 @@ class WireModel:
             return Expect("discard", "unknown message number", direction=direction, far=far)
         if direction == "in" and is_udp_banned(name):
             return Expect("discard", "udp banned", direction=direction, far=far, name=name)
+        claimed_now = False
         if m.claimed is None:
             if name == "UseCircuitCode" and direction == "out":
                 body = parsed.body_plain[4 + parsed.extra_len:]
@@ -239,10 +240,15 @@ class WireModel:
                     return Expect("discard", "no pending session to claim", direction=direction, far=far, name=name)
                 m.claimed = sidx
                 self.session_pending[sidx] = False
+                claimed_now = True
             else:
                 return Expect("discard", "before session claim", direction=direction, far=far, name=name)
         if name == "UseCircuitCode" and direction == "out":
             if far not in self.session_regions.get(m.claimed, ()):
+                if claimed_now:
+                    # the datagram legitimately claimed its session but names a region the session does not have:
+                    # it is dropped, yet not a pure discard (the claim stands) - not judged
+                    return Expect("unjudged", "claimed session, unknown region", direction=direction, far=far, name=name)
                 return Expect("discard", "no region for circuit", direction=direction, far=far, name=name)
             if m.circuits.get(far) != "open":
                 m.circuits[far] = "open"
@@ -550,7 +556,7 @@ class Driver:
         self.ops: Dict[str, Callable[[dict], None]] = {
             "ucc": self.op_ucc, "vsend": self.op_vsend, "ssend": self.op_ssend,
             "garbage": self.op_garbage, "disconnect": self.op_disconnect, "register_region": self.op_register_region,
-            "vack": self.op_vack, "sack": self.op_sack, "objsel": self.op_objsel,
+            "vack": self.op_vack, "sack": self.op_sack, "objsel": self.op_objsel, "reconnect": self.op_reconnect,
         }
 
     def schedule(self, steps):
@@ -731,6 +737,20 @@ class Driver:
         if self.model is not None:
             self.model.close_assoc(v)
         v.disconnect()
+
+    def op_reconnect(self, st):
+        """A viewer that was disconnected logs in again: new session, new SOCKS connection, new association."""
+        v = self.viewer(st)
+        if v.state != "closed":
+            return
+        regions = st.get("regions") or [0]
+        sidx = len(self.world.sessions)
+        spec = self.world.login(sidx, regions)
+        if self.model is not None:
+            self.model.add_session(spec)
+        v.session_idx = sidx
+        self.res.fault("viewer_reconnect")
+        v.connect()
 
     def op_garbage(self, st):
         kind = st["kind"]
